@@ -31,7 +31,9 @@ RULE = ("45% relation structures: 1-3 conjuncts x 1-3 alternatives, every atom w
         "or any non-empty string")
 TRUSTED = ["model coq/Deb822/Relation.v is a hand transcription of PkgRelation.str / parse_relations (parse_archs, "
            "parse_restrictions, parse_rel) with hand-written leaves for __dep_RE (deterministic scanner), the "
-           "separator patterns and __restriction_RE; tied to the code only by this correspondence",
+           "separator patterns and __restriction_RE; the control flow of str / parse_relations and their nested helpers "
+           "is regenerated from the source and proved equal to the model on all inputs (coq/Props/C13Tie.v); the leaves "
+           "and the primitives of coq/Deb822/RelationTrPrims.v are tied to the code only by this correspondence",
            "\\s / str.strip() = Py_UNICODE_ISSPACE and \\w tables generated from the running interpreter (coq/Gen/PyChars.v)"]
 ASSUMPTIONS = ["str.lower() is modelled by ASCII lower-casing: generated text contains no non-ASCII character that "
                "str.lower() changes (the theorems require ASCII profile names)",
@@ -698,3 +700,156 @@ def spec_selftest(items, scratch, tier):
             dis += r
     return {"oracle": "regular-expression reading of the documented domain in harness/props/c13.py (oracle_wf)",
             "compared": len(terms), "disagreements": dis}
+
+
+# ---------------------------------------------------------------------------
+# TIE BY REGENERATION (DESIGN §3.1b): PkgRelation.str and PkgRelation.parse_relations with their nested helpers,
+# regenerated from the source on every run (coq/Gen/TrRelation.v); Deb822/RelationTie.v proves them equal to the model
+# functions of Deb822/Relation.v on all inputs; Props/C13Tie.v states it.  Primitives: Deb822/RelationTrPrims.v.
+#
+# A relation dict is the model's Record `rel` (type trp_reldict): dep['name'] / dep['archqual'] / dep.get(key) /
+# d[key] = v / the dict literal with the five documented keys are renderings chosen by the LITERAL key.  The
+# namedtuples ArchRestriction / BuildRestriction are the model's `term`.
+from harness import extract, py2coq as _P   # noqa: E402
+
+TIE_FILE = "Props/C13Tie.v"
+
+_LS = ("list", "str")
+_OSTR = ("option", "str")
+_REL = ("coq", "trp_reldict")
+_ARCHR = ("coq", "trp_archr")
+_BUILDR = ("coq", "trp_buildr")
+_VER = ("tuple", "str", "str")
+_ARCHS = ("list", _ARCHR)
+_RESTRS = ("list", ("list", _BUILDR))
+
+
+def _lit(s):
+    return ("literal", repr(s), "tt")
+
+
+def _exhausts(call):
+    call.exhausts = True
+    return call
+
+
+_FMT_FUNS = [
+    _P.Fun("tr_pp_arch", "PkgRelation.str.pp_arch", [("arch_spec", _ARCHR)], "str"),
+    _P.Fun("tr_pp_restrictions", "PkgRelation.str.pp_restrictions", [("restrictions", ("list", _BUILDR))], "str",
+           locals={"s": _LS, "term": _BUILDR}),
+    _P.Fun("tr_pp_atomic_dep", "PkgRelation.str.pp_atomic_dep", [("dep", _REL)], "str",
+           locals={"s": "str", "v": ("option", _VER), "a": ("option", _ARCHS), "r": ("option", _RESTRS)}),
+    _P.Fun("tr_rel_str", "PkgRelation.str", [("rels", ("list", ("list", _REL)))], "str"),
+]
+
+_FMT_CALLS = {
+    "<trp_archr>.@enabled": _P.Call("trp_archr_enabled", [_ARCHR], "bool"),
+    "<trp_archr>.@arch": _P.Call("trp_archr_arch", [_ARCHR], "str"),
+    "<trp_buildr>.@enabled": _P.Call("trp_buildr_enabled", [_BUILDR], "bool"),
+    "<trp_buildr>.@profile": _P.Call("trp_buildr_profile", [_BUILDR], "str"),
+    # sep.join(iterable): takes every element of the iterable first (PySequence_Fast), then concatenates
+    "<str>.join": _exhausts(_P.Call("trp_join", ["str", _LS], "str")),
+    "<trp_reldict>.__getitem__": [_P.Call("trp_rel_item_name", [_REL, _lit("name")], "str"),
+                                  _P.Call("trp_rel_item_archqual", [_REL, _lit("archqual")], "str", True)],
+    "<trp_reldict>.get": [_P.Call("trp_rel_get_archqual", [_REL, _lit("archqual")], _OSTR),
+                          _P.Call("trp_rel_get_version", [_REL, _lit("version")], ("option", _VER)),
+                          _P.Call("trp_rel_get_arch", [_REL, _lit("arch")], ("option", _ARCHS)),
+                          _P.Call("trp_rel_get_restrictions", [_REL, _lit("restrictions")], ("option", _RESTRS))],
+    "pp_arch": _P.Call("tr_pp_arch", [_ARCHR], "str", True),
+    "pp_restrictions": _P.Call("tr_pp_restrictions", [("list", _BUILDR)], "str", True),
+    "pp_atomic_dep": _P.Call("tr_pp_atomic_dep", [_REL], "str", True),
+}
+
+# The parser.  `match`/`parts` are the match object and its groupdict() (opaque; the named groups are read by literal
+# key).  parse_archs / parse_restrictions are called with parts[...] : Optional[str], so their parameter is Optional
+# (raw.strip() / raw.lower() on None would be the AttributeError that tr_unwrap renders).  warnings.warn(...) is a
+# primitive on a HIDDEN state, the number of warnings emitted so far (`nwarn`): parse_rel and parse_relations are
+# translated in METHOD MODE on that state; parse_rel is called inside the final nested comprehension (tr_mapS).
+_DEPM = ("coq", "trp_dep_match_t")
+_DEPG = ("coq", "trp_dep_groups")
+_RM = ("coq", "trp_restr_match_t")
+_RG = ("coq", "trp_restr_groups")
+_ST = [("<warnings emitted>", "nwarn", ("coq", "N"))]
+
+_F_PARCHS = _P.Fun("tr_parse_archs", "PkgRelation.parse_relations.parse_archs", [("raw", _OSTR)], _ARCHS,
+                   locals={"archs": _ARCHS, "arch": "str", "disabled": "bool"})
+_F_PRESTR = _P.Fun("tr_parse_restrictions", "PkgRelation.parse_relations.parse_restrictions", [("raw", _OSTR)], _RESTRS,
+                   locals={"restrictions": _RESTRS, "groups": _LS, "rgrp": "str", "group": ("list", _BUILDR),
+                           "restriction": "str", "match": ("option", _RM), "parts": _RG})
+_F_PREL = _P.Fun("tr_parse_rel", "PkgRelation.parse_relations.parse_rel", [("raw", "str")], _REL,
+                 locals={"match": ("option", _DEPM), "parts": _DEPG, "d": _REL}, state=_ST)
+_F_PRELS = _P.Fun("tr_parse_relations", "PkgRelation.parse_relations", [("raw", "str")], ("list", ("list", _REL)),
+                  locals={"tl_deps": _LS, "cnf": ("list", _LS)}, state=_ST, skip_first=True)
+for _f in (_F_PRESTR, _F_PREL):
+    _f.narrow = True        # `if match:` on an Optional match object: the object inside
+
+
+def _kw(call, names):
+    call.kw = list(names)
+    return call
+
+
+def _stateprim(call):
+    call.stateprim = True
+    return call
+
+
+_OPAIR = ("tuple", _OSTR, _OSTR)
+_PARSE_CALLS = {
+    "<str>.strip": [_P.Call("trp_strip", ["str"], "str"), _P.Call("trp_strip_chars", ["str", "str"], "str")],
+    "<str>.lower": _P.Call("trp_lower", ["str"], "str"),
+    "cls.__comma_sep_RE.split": _P.Call("trp_comma_split", ["str"], _LS),
+    "cls.__pipe_sep_RE.split": _P.Call("trp_pipe_split", ["str"], _LS),
+    "cls.__blank_sep_RE.split": _P.Call("trp_blank_split", ["str"], _LS),
+    "cls.__restriction_sep_RE.split": _P.Call("trp_restriction_sep_split", ["str"], _LS),
+    "cls.__dep_RE.match": _P.Call("trp_dep_match", ["str"], ("option", _DEPM)),
+    "cls.__restriction_RE.match": _P.Call("trp_restriction_match", ["str"], ("option", _RM)),
+    "<trp_dep_match_t>.groupdict": _P.Call("trp_dep_groupdict", [_DEPM], _DEPG),
+    "<trp_restr_match_t>.groupdict": _P.Call("trp_restr_groupdict", [_RM], _RG),
+    "<trp_dep_groups>.__getitem__": [_P.Call("trp_dep_name", [_DEPG, _lit("name")], "str"),
+                                     _P.Call("trp_dep_archqual", [_DEPG, _lit("archqual")], _OSTR),
+                                     _P.Call("trp_dep_relop", [_DEPG, _lit("relop")], _OSTR),
+                                     _P.Call("trp_dep_version", [_DEPG, _lit("version")], _OSTR),
+                                     _P.Call("trp_dep_archs", [_DEPG, _lit("archs")], _OSTR),
+                                     _P.Call("trp_dep_restrictions", [_DEPG, _lit("restrictions")], _OSTR)],
+    "<trp_restr_groups>.__getitem__": [_P.Call("trp_restr_enabled", [_RG, _lit("enabled")], _OSTR),
+                                       _P.Call("trp_restr_profile", [_RG, _lit("profile")], "str")],
+    "cls.ArchRestriction": _P.Call("trp_arch_restriction", ["bool", "str"], _ARCHR),
+    "cls.BuildRestriction": _P.Call("trp_build_restriction", ["bool", "str"], _BUILDR),
+    "<trp_reldict>.{}": _kw(_P.Call("trp_rel_new", ["str", _OSTR, ("option", _VER), ("option", _ARCHS),
+                                                    ("option", _RESTRS)], _REL),
+                            ["name", "archqual", "version", "arch", "restrictions"]),
+    "<trp_reldict>.__setitem__": [
+        _P.Call("trp_rel_set_version", [_REL, _lit("version"), _OPAIR], "unit", True, mutates=True),
+        _P.Call("trp_rel_set_arch", [_REL, _lit("arch"), _ARCHS], "unit", mutates=True),
+        _P.Call("trp_rel_set_restrictions", [_REL, _lit("restrictions"), _RESTRS], "unit", mutates=True)],
+    "parse_archs": _P.Call("tr_parse_archs", [_OSTR], _ARCHS, True),
+    "parse_restrictions": _P.Call("tr_parse_restrictions", [_OSTR], _RESTRS, True),
+    # translated in method mode: the calling convention of a primitive on the state
+    "parse_rel": _stateprim(_P.Call("tr_parse_rel", ["str"], _REL)),
+    "warnings.warn": _stateprim(_P.Call("trp_warn", ["str"], "unit")),
+}
+
+TR_MODULE = _P.Module(
+    "TrRelation", "lib/debian/deb822.py",
+    funs=_FMT_FUNS + [_F_PARCHS, _F_PRESTR, _F_PREL, _F_PRELS],
+    calls=dict(_FMT_CALLS, **_PARSE_CALLS),
+    imports=["Deb822.Relation", "Deb822.RelationTrPrims"],
+    regexes=[("PkgRelation.__dep_RE",
+              r'^\s*(?P<name>[a-zA-Z0-9][a-zA-Z0-9.+\-]*)'
+              r'(:(?P<archqual>([a-zA-Z0-9][a-zA-Z0-9-]*)))?'
+              r'(\s*\(\s*(?P<relop>[>=<]+)\s*'
+              r'(?P<version>[0-9a-zA-Z:\-+~.]+)\s*\))?'
+              r'(\s*\[(?P<archs>[\s!\w\-]+)\])?\s*'
+              r'((?P<restrictions><.+>))?\s*'
+              r'$'),
+             ("PkgRelation.__comma_sep_RE", r'\s*,\s*'),
+             ("PkgRelation.__pipe_sep_RE", r'\s*\|\s*'),
+             ("PkgRelation.__blank_sep_RE", r'\s+'),
+             ("PkgRelation.__restriction_sep_RE", r'>\s*<'),
+             ("PkgRelation.__restriction_RE", r'(?P<enabled>\!)?(?P<profile>[^\s]+)')])
+
+
+@extract.register("TrRelation")
+def _gen_tr(repo):
+    return _P.translate_module(repo, TR_MODULE)
